@@ -113,7 +113,7 @@ ADD = {
     "C07": " The document-level collectors (variables, fragments reached through nested spreads) thread their accumulator (C06.R5) and possible-type sets are complete.",
     "C08": " Sequential and concurrent paths agree on failures because every failure leaving a field is the located MultipleException, the one kind recognised among gathered values (C02.R1/R2 + extraction rule).",
     "C09": " The mapping the serial loop iterates is filled in first-appearance order by accumulate-form stores only (C01.R1-R5, run here as R4).",
-    "C10": " The list / non-null / null input wrappers hand on what the scalar returned, not the raw value (C04.R5).",
+    "C10": " The list / non-null / null input wrappers hand on what the scalar returned, not the raw value (C04.R5). R6: the argument decision table (C05.R1): a variable-bound argument is null exactly when the variable's value is None, so falsy values travel like their literals.",
     "C11": " `extend schema` reaches the schema unconditionally and schema directives accumulate across `schema` / `extend schema`; every concatenation of SDL pieces puts a line break between them.",
     "C12": " `extend schema` stores the root names it introduces whether or not the type exists, so that the root-type clause can reject them.",
     "C13": " Bake cascade: every container bakes every one of its members (arguments, fields, input fields, enum values, all types and directives), post-bake chains are awaited once per member; generator wrappers pass every payload on; hook failures yield one error per exception.",
